@@ -28,6 +28,8 @@ let sweep pre suf (f : z list -> string) : string =
   let p = bytes_of_hex pre and s = bytes_of_hex suf in
   String.concat " " (List.init 256 (fun v -> f (p @ (z_of_int v :: s))))
 
+let twice v = v ^ " " ^ v
+
 let model_op toks : string = match toks with
   | ["u8sw"; p; s] ->
       sweep p s (fun b -> dec_of_z (get (from_string b))) ^ " " ^ sweep p s (fun b -> bit (get (is_valid b)))
@@ -50,14 +52,17 @@ let model_op toks : string = match toks with
   | ["fromuint"; v] -> hexz (from_uint (z_of_dec v))
   | ["fromint64"; v] -> hexz (from_int64 (z_of_dec v))
   | ["fromuint64"; v] -> hexz (from_uint64 (z_of_dec v))
-  | ["toint"; h] -> dec_of_z (to_int (bytes_of_hex h))
-  | ["touint"; h] -> dec_of_z (to_uint (bytes_of_hex h))
-  | ["toint64"; h] -> dec_of_z (to_int64 (bytes_of_hex h))
-  | ["touint64"; h] -> dec_of_z (to_uint64 (bytes_of_hex h))
-  | ["rtint"; v] -> dec_of_z (to_int (from_int (z_of_dec v)))
-  | ["rtuint"; v] -> dec_of_z (to_uint (from_uint (z_of_dec v)))
-  | ["rtint64"; v] -> dec_of_z (to_int64 (from_int64 (z_of_dec v)))
-  | ["rtuint64"; v] -> dec_of_z (to_uint64 (from_uint64 (z_of_dec v)))
+  (* the parsers are the checked-read machines on the String's buffer (bytes ++ terminator): a read beyond the
+     terminator would print `! oob`.  Printed twice: member function, then the static overload taking a const char*
+     (String.cpp: the same libc call on the same bytes) *)
+  | ["toint"; h] -> twice (dec_of_z (get (to_int_chk (bytes_of_hex h))))
+  | ["touint"; h] -> twice (dec_of_z (get (to_uint_chk (bytes_of_hex h))))
+  | ["toint64"; h] -> twice (dec_of_z (get (to_int64_chk (bytes_of_hex h))))
+  | ["touint64"; h] -> twice (dec_of_z (get (to_uint64_chk (bytes_of_hex h))))
+  | ["rtint"; v] -> dec_of_z (get (to_int_chk (from_int (z_of_dec v))))
+  | ["rtuint"; v] -> dec_of_z (get (to_uint_chk (from_uint (z_of_dec v))))
+  | ["rtint64"; v] -> dec_of_z (get (to_int64_chk (from_int64 (z_of_dec v))))
+  | ["rtuint64"; v] -> dec_of_z (get (to_uint64_chk (from_uint64 (z_of_dec v))))
   | _ -> failwith ("bad op: " ^ String.concat " " toks)
 
 let ranged lo hi v f = if in_range lo hi v then f v else "?"
@@ -89,10 +94,10 @@ let spec_op toks : string = match toks with
   | ["fromuint"; v] -> ranged Z0 uint_max (z_of_dec v) (fun v -> hexz (ref_decimal v))
   | ["fromint64"; v] -> ranged int64_min int64_max (z_of_dec v) (fun v -> hexz (ref_decimal v))
   | ["fromuint64"; v] -> ranged Z0 uint64_max (z_of_dec v) (fun v -> hexz (ref_decimal v))
-  | ["toint"; h] -> valued int_min int_max (bytes_of_hex h)
-  | ["touint"; h] -> valued Z0 uint_max (bytes_of_hex h)
-  | ["toint64"; h] -> valued int64_min int64_max (bytes_of_hex h)
-  | ["touint64"; h] -> valued Z0 uint64_max (bytes_of_hex h)
+  | ["toint"; h] -> twice (valued int_min int_max (bytes_of_hex h))
+  | ["touint"; h] -> twice (valued Z0 uint_max (bytes_of_hex h))
+  | ["toint64"; h] -> twice (valued int64_min int64_max (bytes_of_hex h))
+  | ["touint64"; h] -> twice (valued Z0 uint64_max (bytes_of_hex h))
   | ["rtint"; v] -> ranged int_min int_max (z_of_dec v) dec_of_z
   | ["rtuint"; v] -> ranged Z0 uint_max (z_of_dec v) dec_of_z
   | ["rtint64"; v] -> ranged int64_min int64_max (z_of_dec v) dec_of_z
